@@ -478,6 +478,17 @@ func runRender(c J) J {
 		res = result{Outcome: "snapdiff", Out: res.Out, Msg: d}
 	}
 	res.put(obs)
+	// the same source and path parsed again on the same engine, 17 lines further down: the location follows
+	if jbool(c, "reline") && res.Outcome == "error" {
+		rs.line0 += 17
+		res2 := doRender(rs, jstr(c, "entry"))
+		rs.line0 -= 17
+		if res2.Outcome == "error" {
+			obs["errline2"] = res2.ErrLine
+		} else {
+			obs["errline2"] = -99
+		}
+	}
 	if m, ok := c["mention"].(string); ok && res.Outcome == "error" {
 		obs["msgok"] = len(res.Msg) > 0 && strings.Contains(res.Msg, m)
 	}
